@@ -297,7 +297,8 @@ func genBatch(rng *rand.Rand, name string, nScopes int, thorough bool, exoticKin
 //
 //	c08w   core shapes, delimiters . / _   lower-case-first scope names (go/java/dart title-case),
 //	       and the witnesses of the two fixed findings (Go '.', Dart $user_)
-//	c08wp  one scope with a variable, -delim %          percent_delimiter (go, java, dart)
+//	c08wp  -delim %: one scope with a variable          percent_delimiter (go, java, dart);
+//	       + a static-only prefix and a scope without prefix (correct everywhere: guards)
 //	c08wq  prefix words with %, $ and '                 exotic_prefix_percent (go, java, dart),
 //	       exotic_prefix_dollar (dart), exotic_prefix_single_quote (py, py:asyncio, py:tornado)
 //	c08wx  prefix word with a backslash, no Go           exotic_prefix_backslash (java, dart); the Go
@@ -360,9 +361,14 @@ func witnessBatches() []*batch {
 	})
 	pct := build(&batch{Name: "c08wp", Kind: "witness", Delims: []string{"%"}}, []w{
 		{"Lumen", "Upper", []tok{{"UP", false}, {"account", true}}, "Tick", [][]string{{"GQWW4yg"}}, "", nil},
+		// static-only prefix and no prefix: plain literals, correct with '%' in every target
+		{"Metrics", "Upper", []tok{{"telemetry", false}, {"prod", false}}, "Recorded", [][]string{{}}, "", nil},
+		{"Bare", "Upper", nil, "Beat", [][]string{{}}, "", nil},
 	})
 	exo := build(&batch{Name: "c08wq", Kind: "witness", Delims: []string{"."}}, []w{
 		{"Birch", "Upper", []tok{{"region", true}, {"prefix%", false}}, "Umbra", [][]string{{"VQCIRqOjkY"}}, "exotic_prefix_percent", nil},
+		// '%' in a static-only prefix is a plain literal: correct in every target
+		{"Cedar", "Upper", []tok{{"rate%", false}, {"x%%y", false}}, "Dune", [][]string{{}}, "exotic_prefix_percent", nil},
 		{"Onyx", "Upper", []tok{{"prefix$x", false}}, "Tango", [][]string{{}}, "exotic_prefix_dollar", nil},
 		{"Heron", "Upper", []tok{{"tenant", true}, {"a'", false}}, "Maple", [][]string{{"Uk"}}, "exotic_prefix_single_quote", []string{"dart"}},
 	})
